@@ -457,3 +457,35 @@ Fixpoint extract_res (fuel : nat) (gen : json -> json) (ef esf : str) (schema : 
 
 Definition extract_from_schema (fuel : nat) (generated : json) (ef esf : str) (schema : json) : xres :=
   to_xres (extract_res fuel (fun _ => generated) ef esf schema).
+
+(* the schema part of extract_top_level for one parameter / media type
+   (examples.py:83-94 and 103-109): the example fields of every expanded
+   schema, then the items of the examples field of every expanded schema *)
+Definition s_x_example : str := [120;45;101;120;97;109;112;108;101]%N.        (* x-example *)
+Definition s_x_examples : str := [120;45;101;120;97;109;112;108;101;115]%N.   (* x-examples *)
+
+Definition iter_values (j : json) : res (list json) :=
+  match j with
+  | JArr l => Ok l
+  | JObj kvs => Ok (map (fun kv => JStr (fst kv)) kvs)
+  | JStr s => Ok (chars_of s)
+  | _ => Err Raised
+  end.
+
+Definition singles (efs : list str) (subs : list json) : list json :=
+  flat_map (fun s => flat_map (fun ef => match obj_get ef s with Some v => [v] | None => [] end) efs) subs.
+
+Definition multi_step (esf : str) (acc : res (list json)) (s : json) : res (list json) :=
+  bind acc (fun out =>
+  match obj_get esf s with
+  | Some x => bind (iter_values x) (fun l => Ok (out ++ l))
+  | None => Ok out
+  end).
+
+Definition top_values_res (efs : list str) (esf : str) (schema : json) : res (list json) :=
+  bind (expand_res schema) (fun subs =>
+  bind (fold_left (multi_step esf) subs (Ok [])) (fun multi =>
+  Ok (singles efs subs ++ multi))).
+
+Definition top_values (efs : list str) (esf : str) (schema : json) : xres :=
+  to_xres (top_values_res efs esf schema).
